@@ -446,7 +446,7 @@ func c12BlobFns(c *Ctx) {
 			assigned := false
 			for b2 := range l.Region {
 				for _, in := range b2.Instrs {
-					if bo, ok := in.(*ssa.BinOp); ok && bo.Op == token.EQL {
+					if bo, ok := in.(*ssa.BinOp); ok && (bo.Op == token.EQL || bo.Op == token.NEQ) {
 						if s, isC := ConstString(bo.Y); isC && s == "lfs" {
 							if _, f, _, isF := FieldOf(bo.X); isF && f == "V" {
 								assigned = true
